@@ -10,10 +10,20 @@ pub open spec fn pad4(n: int) -> int { (4 - n % 4) % 4 }
 //@item stun_rs :: mod common > fn padding
 //@spec
     ensures r as int == pad4(value_size as int), r < 4, (value_size + r) % 4 == 0,
-//@before "(4 - (value_size & 3)) & 3"
+//@head
     let ghost m = value_size & 3usize;
     assert(m == value_size % 4usize) by (bit_vector) requires m == value_size & 3usize;
-    assert(((4usize - m) as usize) & 3usize == ((4usize - m) as usize) % 4usize) by (bit_vector);
+    assert(m < 4) by (bit_vector) requires m == value_size & 3usize;
+    let ghost d = (4usize - m) as usize;
+    assert(d & 3usize == d % 4usize) by (bit_vector);
+    assert(1 <= d <= 4);
+    let ghost rr = d % 4usize;
+    assert(rr == (if m == 0 { 0usize } else { d }));
+    assert((value_size as int + rr as int) % 4 == 0) by {
+        let q = value_size as int / 4;
+        assert(value_size as int == 4 * q + m as int);
+        if m == 0 { assert((4 * q) % 4 == 0); } else { assert((4 * q + 4) % 4 == 0); }
+    }
 //@end
 
 //@item stun_rs :: mod common > fn fill_padding_value
